@@ -144,7 +144,7 @@ def close(a, b, rel):
     if math.isinf(a) or math.isinf(b): return False
     return abs(a - b) <= rel * max(abs(a), abs(b)) + 1e-300
 
-def tie_judge(line, j_ans, m_ans, stats):
+def tie_judge(line, j_ans, m_ans, stats, rel0=None):
     """real Java vs Float model of the Java code -> None | description"""
     j = xdrv.parse_w(j_ans); t = m_ans.split(' ')
     if t[0] == 'stop':
@@ -160,7 +160,7 @@ def tie_judge(line, j_ans, m_ans, stats):
         stats['throws'] = stats.get('throws', 0) + 1
         return None
     if len(j['vals']) != len(m['vals']): return 'shape'
-    rel = 1e-9 if line.split(' ')[0] in RAYL else TIE_REL
+    rel = rel0 if rel0 is not None else (1e-9 if line.split(' ')[0] in RAYL else TIE_REL)
     for a, b in zip(j['vals'], m['vals']):
         if a == b: continue
         if a.startswith('x') and b.startswith('x'):
@@ -278,6 +278,38 @@ def java_model_step(ctx, rep, build=None):
             rep['tie_broken'].append('Java model (j2lean) and the real Java method disagree: `%s`: %s' % (l, v))
         log('C19 model tie: %d methods, %d calls, %d mismatches in %d methods, max rel. deviation %.3g, %d exceptions agreed, model stops %s' % (
             len(per), len(lines), len(mism), len(seen), stats.get('max_rel_dev', 0), stats.get('throws', 0), {k: v for k, v in stats.items() if k.startswith('model_stop')}))
+    # second data configuration (thorough tier, or C19M_KISSEL=1): synthetic Kissel tables, so that the Kissel / cascade methods return values
+    if ok_model and (ctx.tier == 'thorough' or os.environ.get('C19M_KISSEL')):
+        t = time.time()
+        try:
+            if not hasattr(C19, 'edges_c'): C19.load_edges(b)
+            suf = ctx.build_kissel_config('synth')
+            bk = C19.build_kissel(ctx, 'synth')
+            kre = re.compile(r'Kissel|Photo_Total|Photo_Partial|^ElectronConfig$|^P[LM]\d_')
+            kl = [l for l in lines if kre.search(l.split(' ')[0])]
+            with ThreadPoolExecutor(max_workers=2) as ex:
+                fj = ex.submit(xdrv.run_driver, bk['jcmd'], kl, None, 20000, 6)
+                fm = ex.submit(run_model, ctx, kl, 'dump' + suf)
+                jk, mk = fj.result(), fm.result()
+            kstats = {}; kmis = []
+            for l, x, y in zip(kl, jk, mk):
+                v = tie_judge(l, x, y, kstats, 1e-8)      # the model reads the library's tables (11 significant digits), Java the unrounded ones
+                if v and C19.at_split_edge(l):
+                    # the energy lies between the two stored values of an absorption edge (decimal print vs binary dump, one ulp apart): the
+                    # threshold test flips between the two TABLES, not between model and code (same exclusion as props/c19.py) — not judged
+                    kstats['edge_ulp_not_judged'] = kstats.get('edge_ulp_not_judged', 0) + 1; continue
+                if v: kmis.append((l, v))
+            cov['java_tie_kissel'] = dict(calls=len(kl), mismatches=len(kmis), stats=kstats, rel_tol=1e-8, tables='synthetic Kissel table (tools/synth_kissel.py): C library tables (%.10E) through JTables.ofC vs xraylib.dat')
+            seen = set()
+            for l, v in kmis:
+                f = l.split(' ')[0]
+                if f in seen: continue
+                seen.add(f); rep['tie_broken'].append('Java model and the real Java method disagree on the synthetic Kissel tables: `%s`: %s' % (l, v))
+            log('C19 model tie (synthetic Kissel tables): %d calls, %d values, %d exceptions agreed, %d mismatches, max rel. deviation %.3g' % (
+                len(kl), kstats.get('values', 0), kstats.get('throws', 0), len(kmis), kstats.get('max_rel_dev', 0)))
+        except BuildError as e:
+            rep['problems'].append('second data configuration of the tie could not be built: ' + str(e)[:300])
+        ctx.tick('tie_kissel', t)
     cov['java_model_trusted_base'] = TRUSTED
     cov['java_unsupported'] = meta['unsupported']
     ctx.tick('java_model_step', t0)
